@@ -32,6 +32,14 @@ for _p in PROTOCOLS:
     CONFIGS[_p] = ["batteries_included", _p]
 
 
+def repo_suffix(repo=None):
+    """scratch-directory suffix: empty for /repo, a short hash for a scratch copy (so that parallel runs on copies do not collide)"""
+    repo = repo or REPO
+    if os.path.realpath(repo) == "/repo":
+        return ""
+    return "_" + hashlib.sha1(repo.encode()).hexdigest()[:8]
+
+
 def _env():
     e = dict(os.environ)
     e["CARGO_NET_OFFLINE"] = "true"
